@@ -203,7 +203,11 @@ func NewStd(o *kernel.Outcome, tape *kernel.Tape, opt StdOptions) (*World, error
 	if opt.EndpointsFor != nil {
 		opt.Endpoints = opt.EndpointsFor(w.Router)
 	}
-	node, err := BuildOP(w.Store, OPConfig{Router: w.Router, Issuer: w.Issuer, IssuerPath: opt.IssuerPath, IssuerMode: w.IssuerMode, Config: w.Conf, Caps: w.Caps, Options: opts, Endpoints: opt.Endpoints})
+	publicCtors := tape.Sub("cfg-ctors").Bool(1, 2)
+	if publicCtors {
+		o.Probe("providers-built-with-the-public-constructors")
+	}
+	node, err := BuildOP(w.Store, OPConfig{PublicCtors: publicCtors, Router: w.Router, Issuer: w.Issuer, IssuerPath: opt.IssuerPath, IssuerMode: w.IssuerMode, Config: w.Conf, Caps: w.Caps, Options: opts, Endpoints: opt.Endpoints})
 	if err != nil {
 		return nil, err
 	}
